@@ -7,3 +7,6 @@ import TephraProps.C04
 #print axioms Tephra.Props.exEnv_ok
 #print axioms Tephra.Props.C04_iter_is_next_loop
 #print axioms Tephra.Props.C04_next_loop_delivered
+#print axioms Tephra.Props.C04_parse_span_history
+#print axioms Tephra.Props.C04_parse_span_history_metrics
+#print axioms Tephra.Props.C04_measureText_byte
